@@ -70,20 +70,18 @@ func runTlvDecode(t TB, data []byte) int {
 		skipString = true
 	}
 	if !skipString {
-		guard(t, "tlv.String", len(data), rep("entry", "tlv.Decode(x).String()", "input", data), func() {
-			_ = nodes.String()
+		// the rendering is indented: its size is legitimately (depth x nodes); allocation may be
+		// proportional to the input AND to the text produced (16 bytes per output byte)
+		outLen := 0
+		guardN(t, "tlv.String", false, func() int { return len(data) + outLen*16/allocPerByte }, rep("entry", "tlv.Decode(x).String()", "input", data), func() {
+			outLen = len(nodes.String())
 		})
-		top := nodes.Nodes()
-		if len(top) > 0 && len(top) <= 4 {
-			guard(t, "tlv.String", len(data), rep("entry", "node.String()", "input", data), func() {
-				for _, n := range top {
-					_ = n.String()
-					for i, c := range n.Children() {
-						if i >= 2 {
-							break
-						}
-						_ = c.String()
-					}
+		if top := nodes.Nodes(); len(top) > 0 {
+			out2 := 0
+			guardN(t, "tlv.String", false, func() int { return len(data) + out2*16/allocPerByte }, rep("entry", "first node (and its first child) .String()", "input", data), func() {
+				out2 = len(top[0].String())
+				if ch := top[0].Children(); len(ch) > 0 {
+					out2 += len(ch[0].String())
 				}
 			})
 		}
